@@ -221,6 +221,14 @@ type Raft struct {
 	// The timestamp representing the time of the last contact by the leader.
 	lastContact time.Time
 
+	// Indicates whether a replicated operation is being applied to the state machine.
+	// The lock is not held while the state machine applies an operation.
+	applying bool
+
+	// Indicates whether the state machine is reserved for taking or restoring a snapshot.
+	// Replicated operations are not applied to the state machine while it is reserved.
+	snapshotting bool
+
 	wg sync.WaitGroup
 
 	mu sync.Mutex
@@ -1481,6 +1489,16 @@ func (r *Raft) InstallSnapshot(
 		r.logger.Fatalf("failed to get snapshot file: error = %v", err)
 	}
 
+	// Wait for the operation that is being applied to complete and prevent further operations
+	// from being applied while the state machine is restored.
+	if !r.reserveStateMachine() {
+		if err := snapshot.Close(); err != nil {
+			r.logger.Errorf("failed to close snapshot file: error = %v", err)
+		}
+		return nil
+	}
+	defer r.releaseStateMachine()
+
 	// Restore the state machine with the snapshot.
 	// This could take a while so it's probably best that the lock is released.
 	r.mu.Unlock()
@@ -1545,6 +1563,14 @@ func (r *Raft) snapshotLoop() {
 // only be taken if there is new state since the previous snapshot and there
 // is not a pending configuration change.
 func (r *Raft) takeSnapshot() {
+	// Wait for the operation that is being applied to complete and prevent further operations
+	// from being applied so that the snapshot contains exactly the operations up to the last
+	// applied index.
+	if !r.reserveStateMachine() {
+		return
+	}
+	defer r.releaseStateMachine()
+
 	// There is nothing new to snapshot.
 	if r.lastApplied <= r.lastIncludedIndex {
 		return
@@ -1783,6 +1809,14 @@ func (r *Raft) applyLoop() {
 		// Scan the log starting at the entry following the last applied entry
 		// and apply any entries that have been committed.
 		for r.lastApplied < r.commitIndex && r.state != Shutdown {
+			// The state machine must not be modified while a snapshot of it is being
+			// taken or restored - otherwise the content of the snapshot would not
+			// correspond to the last applied index it is associated with.
+			if r.snapshotting {
+				r.applyCond.Wait()
+				continue
+			}
+
 			entry, err := r.log.GetEntry(r.lastApplied + 1)
 			if err != nil {
 				r.logger.Fatalf("failed to get entry from log: error = %v", err)
@@ -1805,6 +1839,7 @@ func (r *Raft) applyLoop() {
 				}
 				lastApplied := r.lastApplied
 
+				r.applying = true
 				r.mu.Unlock()
 				response := OperationResponse{
 					Operation:           operation,
@@ -1818,6 +1853,8 @@ func (r *Raft) applyLoop() {
 					operation.OperationType.String(),
 				)
 				r.mu.Lock()
+				r.applying = false
+				r.applyCond.Broadcast()
 
 				// It's possible a snapshot was installed while the lock was released.
 				// It's not safe to increment the last applied index if it has changed.
@@ -1963,6 +2000,27 @@ func (r *Raft) stepdown() {
 	r.operationManager = newOperationManager(r.options.leaseDuration)
 
 	r.logger.Info("stepped down to the follower state")
+}
+
+// reserveStateMachine waits until no replicated operation is being applied to the state machine
+// and the state machine is not reserved and then reserves it. While the state machine is reserved,
+// replicated operations are not applied to it. Returns false if the node was shutdown while waiting.
+// The state machine must be released using releaseStateMachine.
+func (r *Raft) reserveStateMachine() bool {
+	for (r.applying || r.snapshotting) && r.state != Shutdown {
+		r.applyCond.Wait()
+	}
+	if r.state == Shutdown {
+		return false
+	}
+	r.snapshotting = true
+	return true
+}
+
+// releaseStateMachine releases the state machine after it was reserved using reserveStateMachine.
+func (r *Raft) releaseStateMachine() {
+	r.snapshotting = false
+	r.applyCond.Broadcast()
 }
 
 // tryApplyReadOnlyOperations renews the lease and notifies the read-only
